@@ -287,7 +287,9 @@ ADDENDA = {
         'matchGroups; Props/Regex.lean ties the pattern texts to the source and to the constants of the translated module.',
  'C10': ' The seat thread that sends these streams is also covered as TRANSLATED code (see C09: Generated/PyCoreThreads.lean, Translated/ThreadsSeat*.lean). '
         'Refused actions (an illegal call, a card not held, a card already played) are exercised too: nobody may be told about an action that was not accepted.',
- 'C13': ' The operator\'s interrupt is also delivered as a REAL signal (harness/sigint_smoke.py: Server.run in the main thread of a child process over loopback '
+ 'C13': ' Since session 5 one abort path IS covered on translated code: Translated/ThreadsMainF.lean main_bidding_unparseable_raises — an unparseable plain-ASCII call makes the '
+        'translated bidding_phase raise at the parse_bid statement, before take_bid and before any relay (parse_bid_refuses / parse_card_refuses: the translated parsers raise '
+        'exactly when the model\'s refuse). The operator\'s interrupt is also delivered as a REAL signal (harness/sigint_smoke.py: Server.run in the main thread of a child process over loopback '
         'TCP, SIGINT while a later board is under way). The translated main thread (Generated/PyCoreThreads.lean) covers the normal path only: MiniPy '
         'drops the state at an exception, so the abort path stays with the hand-written abort model and the fault enumeration.',
 }
